@@ -561,4 +561,14 @@ def no_rounding(repo: Repo) -> RuleRun:
 
 no_rounding.rule_id = "C15.NO-ROUNDING"
 
-RULES = [write_guard, edge_neighbours, boundary_rule, backport, no_stale_lazy_cache, irregular_valence, no_rounding]
+def match_tolerance(repo: Repo) -> RuleRun:
+    """'... every point the user fixed [stays] exactly where it was' (and no other). Same rule as C13.MATCH-TOLERANCE."""
+    from . import c13
+
+    return c13.match_tolerance(repo, PROP, "C15.MATCH-TOLERANCE")
+
+
+match_tolerance.rule_id = "C15.MATCH-TOLERANCE"
+
+
+RULES = [write_guard, edge_neighbours, boundary_rule, backport, no_stale_lazy_cache, irregular_valence, no_rounding, match_tolerance]
